@@ -173,7 +173,11 @@ public:
         }
     }
 protected:
+#ifdef COCLS_VERIF
+    cocls_verif::atomic<bool> _busy = {false};
+#else
     std::atomic<bool> _busy = {false};
+#endif
 };
 
 
